@@ -41,6 +41,7 @@ class IntrospectablePass(object):
         self._namespace.walk(self._introspectable_pass3)
         self._namespace.walk(self._remove_non_reachable_backcompat_copies)
         self._namespace.walk(self._introspectable_symbol_collisions)
+        self._namespace.walk(self._introspectable_property_accessors)
 
     def _parameter_warning(self, parent, param, text, position=None):
         # Suppress VFunctions and Callbacks warnings for now
@@ -275,6 +276,20 @@ class IntrospectablePass(object):
                         if prop.name == get_property and not prop.introspectable:
                             method.get_property = None
                             break
+        return True
+
+    def _introspectable_property_accessors(self, obj, stack):
+        # An accessor that is not introspectable is not in the typelib;
+        # this runs last, when no method changes state any more
+        if isinstance(obj, (ast.Class, ast.Interface)):
+            methods = dict((method.name, method) for method in obj.methods)
+            for prop in obj.properties:
+                setter = methods.get(prop.setter)
+                if setter is not None and (setter.skip or not setter.introspectable):
+                    prop.setter = None
+                getter = methods.get(prop.getter)
+                if getter is not None and (getter.skip or not getter.introspectable):
+                    prop.getter = None
         return True
 
     def _introspectable_pass3(self, obj, stack):
